@@ -52,9 +52,7 @@ template <class T> static void run_T(Choice &c, Ctx &cx)
     bool aborted = e.call();
     if (aborted) {
         std::string m = vf_abort_msg();
-        // Known finding F-ILU: a column can be left without an eligible pivot; the complex variants then divide by the zero
-        // diagonal and call exit(-1)
-        if (cplx && m.find("exit(") != std::string::npos && cx.is_known("F-ILU")) { cx.exclude("F-ILU"); cx.label("F-ILU:exit-on-zero-division"); vf_purge(); return; }
+        // (exit(-1) from c_div/z_div used to be excused under F-ILU; its cause was finding F23, fixed in 57340bb)
         cx.fail("abort", "gsisx: library called ABORT/exit: " + m); vf_purge(); return;
     }
     long long info = e.info;
